@@ -89,10 +89,10 @@ Section Order.
   (* what the pinned code computes: lower_bound's index, with no equality test *)
   Theorem idx_char S v :
     sortedb lt S = true ->
-    exists r, get_rlm_idx lt dt_set S v = Some r /\
+    exists r, get_rlm_idx_orig lt dt_set S v = Some r /\
               forall i, r = Some i <-> (i = count_lt lt S v /\ i < length S).
   Proof.
-    intros Hs. unfold get_rlm_idx. cbn [get_rlm_idx_gen].
+    intros Hs. unfold get_rlm_idx_orig. cbn [get_rlm_idx_gen].
     rewrite (o_lower_bound_sorted lt O S v Hs).
     assert (count_lt lt S v <= length S) as Hle.
     { unfold count_lt. clear. induction S as [|x S IH]; cbn [filter length]; [lia|].
@@ -107,7 +107,7 @@ Section Order.
   (* members get exactly their own index *)
   Theorem idx_member S v i :
     sortedb lt S = true -> nth_error S i = Some v ->
-    get_rlm_idx lt dt_set S v = Some (Some i).
+    get_rlm_idx_orig lt dt_set S v = Some (Some i).
   Proof.
     intros Hs Hi. destruct (idx_char S v Hs) as [r [Hr Hiff]]. rewrite Hr. f_equal.
     apply Hiff. split.
@@ -118,10 +118,10 @@ Section Order.
   (* a non-member gets the index of the next larger member whenever there is one *)
   Theorem idx_nonmember S v :
     sortedb lt S = true -> ~ In v S ->
-    (forall i, get_rlm_idx lt dt_set S v = Some (Some i) ->
+    (forall i, get_rlm_idx_orig lt dt_set S v = Some (Some i) ->
        exists y, nth_error S i = Some y /\ lt v y = true /\
                  forall j z, j < i -> nth_error S j = Some z -> lt z v = true) /\
-    (get_rlm_idx lt dt_set S v = Some None <-> forall y, In y S -> lt y v = true).
+    (get_rlm_idx_orig lt dt_set S v = Some None <-> forall y, In y S -> lt y v = true).
   Proof.
     intros Hs Hn. destruct (idx_char S v Hs) as [r [Hr Hiff]]. rewrite Hr. split.
     - intros i Hi. inversion Hi; subst r. destruct (proj1 (Hiff i) eq_refl) as [-> Hlt].
@@ -195,7 +195,7 @@ Section Order.
 
   Theorem model_idx_ok_partial S v r :
     sortedb lt S = true -> off_defect S v = true ->
-    get_rlm_idx lt dt_set S v = Some r -> c10_idx_ok lt S v r = true.
+    get_rlm_idx_orig lt dt_set S v = Some r -> c10_idx_ok lt S v r = true.
   Proof.
     intros Hs Hoff Hr. unfold c10_idx_ok. unfold off_defect in Hoff.
     pose proof (o_sortedb_NoDup lt O S Hs) as Hnd.
@@ -225,13 +225,67 @@ Section Order.
       apply In_nth_error in Hin. destruct Hin as [i Hi]. apply Hiff in Hi. discriminate.
   Qed.
 
-  (* the printer shows exactly the description paired with the value *)
+  (* ---- the current code (with the equality test): full strength ---- *)
+  Theorem idx_exact S v :
+    sortedb lt S = true ->
+    exists r, get_rlm_idx lt dt_set S v = Some r /\ forall i, r = Some i <-> nth_error S i = Some v.
+  Proof. exact (idx_fixed_exact S v). Qed.
+
+  Theorem idx_exists_iff_member S v :
+    sortedb lt S = true ->
+    exists r, get_rlm_idx lt dt_set S v = Some r /\ ((exists i, r = Some i) <-> In v S).
+  Proof.
+    intros Hs. destruct (idx_exact S v Hs) as [r [Hr Hiff]]. exists r. split; [exact Hr|]. split.
+    - intros [i Hi]. apply Hiff in Hi. eapply nth_error_In; eassumption.
+    - intros Hin. apply In_nth_error in Hin. destruct Hin as [i Hi]. exists i. apply Hiff. exact Hi.
+  Qed.
+
+  Theorem model_idx_ok S v r :
+    sortedb lt S = true -> get_rlm_idx lt dt_set S v = Some r -> c10_idx_ok lt S v r = true.
+  Proof. exact (model_idx_fixed_ok S v r). Qed.
+
+  (* the printer shows the description paired with the value, and none for a non-member *)
+  Theorem model_desc_ok {D} (eqD : D -> D -> bool) (eqD_refl : forall d, eqD d d = true)
+      S (descs : list D) v r :
+    sortedb lt S = true -> length descs = length S ->
+    describe lt dt_set S descs v = Some r -> c10_desc_ok lt eqD S descs v r = true.
+  Proof.
+    intros Hs Hlen Hr. unfold describe, describe_gen in Hr.
+    destruct (idx_total true dt_set S v) as [ri Hri]. rewrite Hri in Hr.
+    pose proof (model_idx_fixed_ok S v ri Hs Hri) as Hok.
+    unfold c10_idx_ok in Hok. unfold c10_desc_ok.
+    destruct ri as [i|]; destruct (index_of lt S v) as [j|]; cbn in Hok; try discriminate.
+    - apply Nat.eqb_eq in Hok. subst j. destruct (nth_error descs i) as [d|] eqn:Ed; [|discriminate].
+      inversion Hr. cbn. apply eqD_refl.
+    - inversion Hr. reflexivity.
+  Qed.
+
+  Theorem desc_exact {D} S (descs : list D) v :
+    sortedb lt S = true -> length descs = length S ->
+    exists r, describe lt dt_set S descs v = Some r /\
+              forall d, r = Some d <-> exists i, nth_error S i = Some v /\ nth_error descs i = Some d.
+  Proof.
+    intros Hs Hlen. unfold describe, describe_gen.
+    destruct (idx_exact S v Hs) as [ri [Hri Hiff]]. unfold get_rlm_idx in Hri. rewrite Hri.
+    destruct ri as [i|].
+    - pose proof (proj1 (Hiff i) eq_refl) as Hi.
+      destruct (nth_error descs i) as [d0|] eqn:Ed.
+      2:{ apply nth_error_None in Ed. assert (i < length S) by (apply nth_error_Some; congruence). lia. }
+      eexists. split; [reflexivity|]. intros d. split.
+      + intros H. inversion H; subst. exists i. split; assumption.
+      + intros [j [Hj Hd]]. assert (Some i = Some j) as E by (apply Hiff; exact Hj). inversion E; subst. congruence.
+    - eexists. split; [reflexivity|]. intros d. split; [discriminate|].
+      intros [j [Hj _]]. apply Hiff in Hj. discriminate.
+  Qed.
+
+  (* the ORIGINAL routine: exact only off the defect zone.  The printer of the original code
+     shows exactly the description paired with the value there *)
   Theorem model_desc_ok_partial {D} (eqD : D -> D -> bool) (eqD_refl : forall d, eqD d d = true)
       S (descs : list D) v r :
     sortedb lt S = true -> off_defect S v = true -> length descs = length S ->
-    describe lt dt_set S descs v = Some r -> c10_desc_ok lt eqD S descs v r = true.
+    describe_gen lt false dt_set S descs v = Some r -> c10_desc_ok lt eqD S descs v r = true.
   Proof.
-    intros Hs Hoff Hlen Hr. unfold describe, describe_gen in Hr.
+    intros Hs Hoff Hlen Hr. unfold describe_gen in Hr.
     destruct (idx_total false dt_set S v) as [ri Hri]. rewrite Hri in Hr.
     pose proof (model_idx_ok_partial S v ri Hs Hoff Hri) as Hok.
     unfold c10_idx_ok in Hok. unfold c10_desc_ok.
@@ -239,6 +293,30 @@ Section Order.
     - apply Nat.eqb_eq in Hok. subst j. destruct (nth_error descs i) as [d|] eqn:Ed; [|discriminate].
       inversion Hr. cbn. apply eqD_refl.
     - inversion Hr. reflexivity.
+  Qed.
+
+  (* ---- the field object: the whole value is looked up ---- *)
+  Theorem field_is_valid_In S v :
+    sortedb lt S = true ->
+    exists b, field_is_valid lt (Some (dt_set, S)) v = Some b /\ (b = true <-> In v S).
+  Proof. intros Hs. cbn [field_is_valid]. apply is_valid_set_In. exact Hs. Qed.
+
+  Theorem field_no_realm v :
+    field_is_valid lt None v = Some true /\ field_get_rlm_idx lt None v = Some None.
+  Proof. split; reflexivity. Qed.
+
+  Theorem field_idx_is_realm_idx fixed k S v :
+    field_get_rlm_idx_gen lt fixed (Some (k, S)) v = get_rlm_idx_gen lt fixed k S v.
+  Proof. reflexivity. Qed.
+
+  Theorem model_field_valid_ok rlm v b :
+    match rlm with Some (dt_set, R) => sortedb lt R = true | Some (dt_range, R) => exists lo hi, R = [lo; hi] | None => True end ->
+    field_is_valid lt rlm v = Some b -> c10_field_valid_ok lt rlm v b = true.
+  Proof.
+    destruct rlm as [[[|] S]|]; cbn [field_is_valid c10_field_valid_ok].
+    - intros [lo [hi ->]]. apply model_valid_range_ok.
+    - intros Hs. apply model_valid_ok. exact Hs.
+    - intros _ H. inversion H. reflexivity.
   Qed.
 End Order.
 
@@ -251,7 +329,7 @@ Definition side_realm : list Z := [49; 50; 51; 52; 53; 54; 55; 56; 57].
 Lemma idx_refuted_lemma :
   exists (S : list Z) (v : Z) (i : nat) (y : Z),
     sortedb Z.ltb S = true /\ ~ In v S /\
-    get_rlm_idx Z.ltb dt_set S v = Some (Some i) /\ nth_error S i = Some y /\ y <> v /\
+    get_rlm_idx_orig Z.ltb dt_set S v = Some (Some i) /\ nth_error S i = Some y /\ y <> v /\
     c10_idx_ok Z.ltb S v (Some i) = false.
 Proof.
   exists side_realm, 48, 0%nat, 49. repeat split; try reflexivity; try discriminate.
@@ -278,10 +356,11 @@ Qed.
 
 Lemma nonvacuous_lemma :
   sortedb Z.ltb side_realm = true /\
-  off_defect Z.ltb side_realm 53 = true /\ off_defect Z.ltb side_realm 65 = true /\
-  off_defect Z.ltb side_realm 48 = false /\
   get_rlm_idx Z.ltb dt_set side_realm 53 = Some (Some 4%nat) /\
   get_rlm_idx Z.ltb dt_set side_realm 65 = Some None /\
+  get_rlm_idx Z.ltb dt_set side_realm 48 = Some None /\
+  describe Z.ltb dt_set side_realm [1; 2; 3; 4; 5; 6; 7; 8; 9] 53 = Some (Some 5) /\
+  describe Z.ltb dt_set side_realm [1; 2; 3; 4; 5; 6; 7; 8; 9] 48 = Some None /\
   is_valid Z.ltb dt_set side_realm 53 = Some true /\
   is_valid Z.ltb dt_set side_realm 48 = Some false /\
   sortedb str_ltb [[67]; [78]; [82]] = true /\
